@@ -432,8 +432,11 @@ func (b *Buffer) ensure() {
 			}
 		})
 	}
-	if b.cleaner == nil {
+	if b.cond == nil {
 		changes = append(changes, func() {
+			// NOTE: b.cleaner is the only field (of those initialised here) which may be written after init (see
+			// SetCleanerConfig), so it must only be read with the lock held - it's defaulted as part of the one-time
+			// init guarded by b.cond, which is never re-written
 			if b.cleaner == nil {
 				// setup the cleaner defaults - it's done here to allow new(bigbuff.Buffer)
 				// note that b.cleaner.Cleaner must never be nil, and b.cleaner.Cooldown must always be >= 0
